@@ -233,6 +233,21 @@ func e2Programs(thorough bool) []*c04Prog {
 			}
 		}
 	}
+	// many requests for one base name within one invocation: the allocator's suffixes walk through int0..int8..,
+	// uint8.., float32.., complex64/128 (predeclared identifiers that END in digits)
+	for _, n := range []string{"Int", "Uint", "Float", "Complex", "Foo"} {
+		for _, mode := range []string{"sync", "async"} {
+			const many = 130
+			var body strings.Builder
+			fmt.Fprintf(&body, "type %s struct{ A int }\n\nfunc NewN() *%s { return &%s{} }\n\ntype Y struct{ A int }\n\nfunc NewY() *Y { return &Y{} }\n\n", n, n, n)
+			for i := 0; i < many; i++ {
+				fmt.Fprintf(&body, "type R%d struct{ A int }\n\nfunc NewR%d(n *%s, y *Y) *R%d { return &R%d{} }\n\nvar _ = kessoku.Inject[*R%d](\"Init%d\", %s, %s, kessoku.Provide(NewR%d))\n\n", i, i, n, i, i, i, i, wrap(mode, "NewN"), wrap(mode, "NewY"), i)
+			}
+			src := "import (\n\t\"github.com/mazrean/kessoku\"\n)\n\n" + body.String()
+			out = append(out, &c04Prog{Family: "E2", Name: fmt.Sprintf("name %s (%d injectors in one file, each requesting the base name) %s", n, many, mode), Files: map[string]string{"k.go": src}, Invoke: [][]string{{"k.go"}},
+				Pre: fmt.Sprintf("name=%s,shape=many-injectors,mode=%s", n, mode)})
+		}
+	}
 	// imports whose package name collides with a generated identifier or with another import
 	for _, mode := range modes {
 		for _, pk := range []string{"errgroup", "context", "eg", "ctx", "kessoku", "y"} {
